@@ -284,26 +284,11 @@ func c09(c *Ctx) {
 				return true
 			}
 			nLoops++
-			// a Put at the top level of the body, no continue/break
+			// on the CFG: no way from the top of the body back to the loop header avoids a batch.Put (paths that leave the
+			// function — return err — are fine), and the loop is not left early (no path from the body to the statement
+			// after the loop that does not go through the header)
 			put, skip := false, false
-			for _, st := range rs.Body.List {
-				if es, ok := st.(*ast.ExprStmt); ok {
-					if call, ok := es.X.(*ast.CallExpr); ok {
-						if se, ok := ast.Unparen(call.Fun).(*ast.SelectorExpr); ok && se.Sel.Name == "Put" {
-							put = true
-						}
-					}
-				}
-			}
-			ast.Inspect(rs.Body, func(m ast.Node) bool {
-				if b, ok := m.(*ast.BranchStmt); ok && (b.Tok == token.CONTINUE || b.Tok == token.BREAK) {
-					skip = true
-				}
-				return true
-			})
-			// the same on the CFG (also covers one loop with an encoding branch inside): no path from the top of the body
-			// back to the loop header avoids a batch.Put; paths that leave the function (return err) are fine
-			if !put && len(rs.Body.List) > 0 {
+			if len(rs.Body.List) > 0 {
 				g := c.Graph(fi)
 				bodyStart := g.VertexOf(rs.Body.List[0])
 				isPut := func(x int) bool {
@@ -319,17 +304,38 @@ func c09(c *Ctx) {
 					}
 					return false
 				}
-				if bodyStart >= 0 && !isPut(bodyStart) {
-					avoid := g.Reach(bodyStart, isPut, nil)
-					back := false
+				head := -1
+				for _, v := range g.V {
+					for _, e := range v.Succ {
+						if e.Range == rs {
+							head = v.ID
+						}
+					}
+				}
+				if bodyStart >= 0 && head >= 0 {
+					avoid := g.Reach(bodyStart, func(x int) bool { return isPut(x) || x == head }, nil)
+					back := isPut(bodyStart) == false && false
 					for _, v := range g.V {
+						if !(avoid[v.ID] || v.ID == bodyStart) || isPut(v.ID) {
+							continue
+						}
 						for _, e := range v.Succ {
-							if e.To == bodyStart && avoid[v.ID] {
+							if e.To == head {
 								back = true // the header is reachable again without a Put
 							}
 						}
 					}
 					put = !back
+					// early exit: anything after the loop reachable from the body without passing the header (returns excluded)
+					inBody := g.Reach(bodyStart, func(x int) bool { return x == head }, nil)
+					for x := range g.V {
+						if !inBody[x] || g.V[x].Node == nil || x == g.Exit {
+							continue
+						}
+						if !(rs.Body.Pos() <= g.V[x].Node.Pos() && g.V[x].Node.End() <= rs.Body.End()) {
+							skip = true // left the loop body without going through the header: break / goto
+						}
+					}
 				}
 			}
 			r.Check(put && !skip, "C09.L2", fi.Name(), "every entry handed over is written", c.P.Pos(rs.Pos()), "unconditional batch.Put per entry", "StoreLogs skips entries (conditional write or continue/break in the loop)")
